@@ -6,6 +6,22 @@ src="/verif/seeded/$d"
 git -C /repo worktree remove --force "$wt" 2>/dev/null
 git -C /repo worktree add -q "$wt" HEAD || exit 2
 for f in "$src"/*; do case "$(basename "$f")" in patch.diff|meta.json|verify.log) ;; *) cp -r "$f" "$wt/";; esac; done
+# the demos were written in the sub-agents' own worktrees (/tmp/seed_<id><wave letter>): point them at this one
+grep -rlE "/tmp/seed_${id}[a-z]" "$wt" --include='*.py' --include='*.yaml' 2>/dev/null | grep -v "^$wt/mpf/" | xargs -r sed -i -E "s#/tmp/seed_${id}[a-z]#$wt#g"
+if [ -n "$DEMO_ONLY" ]; then
+  # re-run the demos only; keep the suite comparison recorded earlier
+  suite_line=$(grep -E "^suite outcomes|^SUITE DIFFERS" "$src/verify.log" 2>/dev/null | head -1)
+  {
+  echo "== $d ($id) =="
+  /venv/bin/python "$wt/demo_seed.py" > /dev/null 2>&1; echo "demo without patch: exit $?"
+  (cd "$wt" && git apply "$src/patch.diff") || { echo "patch does not apply"; }
+  /venv/bin/python "$wt/demo_seed.py" > /dev/null 2>&1; echo "demo with patch: exit $?"
+  echo "${suite_line:-suite comparison not repeated}"
+  } > "$src/verify.log" 2>&1
+  git -C /repo worktree remove --force "$wt"
+  cat "$src/verify.log"
+  exit 0
+fi
 run_suite() { (cd "$wt" && /venv/bin/python -m pytest -q -p no:cacheprovider --timeout=900 --continue-on-collection-errors -rA mpf/tests 2>&1 | grep -E "^(PASSED|FAILED|ERROR|SKIPPED)" | sort); }
 {
 echo "== $d ($id) =="
